@@ -75,6 +75,17 @@ def satisfy_table(cx, loopvar='entry'):
                 return C
             if t in (f'len({ev}.implicit_sha256) == 0', f"{ev}.implicit_sha256 == b''"):
                 return not C
+            if isinstance(e, ast.Compare) and len(e.ops) == 1:
+                # the length of the stored digest against a number, in any orientation / operator: 32 octets when present, 0 when absent
+                import operator as _op
+                ops_ = {ast.Eq: _op.eq, ast.NotEq: _op.ne, ast.Lt: _op.lt, ast.LtE: _op.le, ast.Gt: _op.gt, ast.GtE: _op.ge}
+                l_, r_ = e.left, e.comparators[0]
+                ln_ = f'len({ev}.implicit_sha256)'
+                if type(e.ops[0]) in ops_:
+                    if ast.unparse(l_) == ln_ and isinstance(r_, ast.Constant) and isinstance(r_.value, int) and r_.value in (0, 1):
+                        return ops_[type(e.ops[0])](32 if C else 0, r_.value)
+                    if ast.unparse(r_) == ln_ and isinstance(l_, ast.Constant) and isinstance(l_.value, int) and l_.value in (0, 1):
+                        return ops_[type(e.ops[0])](l_.value, 32 if C else 0)
             if isinstance(e, ast.Compare) and len(e.ops) == 1 and isinstance(e.ops[0], (ast.Eq, ast.NotEq)):
                 sides = [ast.unparse(e.left), ast.unparse(e.comparators[0])]
                 if f'{ev}.implicit_sha256' in sides:
@@ -493,8 +504,8 @@ def run(R):
                 if v is False and tests and rn.id in sx.cfg.reachable(removed_edges={(t.id, True) for t in tests}):
                     probs.append(('reports "node not empty" (False) although nothing was kept', rn.ast))
                 if v is None:
-                    t = ast.unparse(rn.ast.value)
-                    if t not in (f'not {kl}', f'len({kl}) == 0', 'not self.pending_list'):
+                    t = full_text(sx, rn.ast.value)
+                    if t not in (f'not {kl}', f'len({kl}) == 0', 'not self.pending_list', f'len({kl}) <= 0', f'len({kl}) < 1'):
                         raise AnalysisError(f'{nodeq}.satisfy: unrecognised return {t}')
                 if v is True and assigns:
                     # on the empty path the list must not keep stale entries: deletion of the node follows, fine
